@@ -1,4 +1,8 @@
-(* Props/C14.v — statements only.  Each is closed by [exact] of a lemma proved in Spec/ or Proofs/. *)
+(* Props/C14.v — statements only.  Each is closed by [exact] of lemmas proved in Spec/ or Proofs/.
+   [activity_row] is the transcription of activity() in the configuration the translator reads from
+   /repo on every run (Gen/ActivationDat.v: no small-argument branch, burn-up difference through
+   expm1); reverting the source changes the configuration and the obligations below that depend on
+   it (never_raises, refinement on every branch) no longer check. *)
 From Coq Require Import Reals ZArith QArith Qreals String List Bool.
 From Coquelicot Require Import Coquelicot.
 From PT Require Import Str Dec Py IExpr ActEval ActEvalSound Act Activation C14Proofs C14Sweep C14Table.
@@ -7,195 +11,144 @@ From PT.Gen Require ActivationDat.
 Import ListNotations.
 Open Scope R_scope.
 
-(* ---------------- Spec: the closed forms solve their reaction chains *)
-
-(* single capture with burn-up of target (k1) and product (k2):  N1' = -k1 N1, N2' = k1 N1 - k2 N2 *)
-Theorem C14_chain_capture_solves : forall N0 k1 k2, k1 <> k2 ->
-  (forall t, is_derive (c1_N1 N0 k1) t (- k1 * c1_N1 N0 k1 t)) /\
-  (forall t, is_derive (c1_N2 N0 k1 k2) t (k1 * c1_N1 N0 k1 t - k2 * c1_N2 N0 k1 k2 t)) /\
-  c1_N1 N0 k1 0 = N0 /\ c1_N2 N0 k1 k2 0 = 0.
+(* ---------------- Spec: the closed forms solve their reaction chains
+   capture with burn-up:  N1' = -k1 N1, N2' = k1 N1 - k2 N2
+   decay feeding ('b'):    P' = R - lp P,  D' = lp P - l D
+   two-step capture ('2n'): N1' = -k1 N1, N2' = k1 N1 - kp N2, N3' = kc N2 - l N3 *)
+Theorem C14_chains_solve :
+  (forall N0 k1 k2, k1 <> k2 ->
+     (forall t, is_derive (c1_N1 N0 k1) t (- k1 * c1_N1 N0 k1 t)) /\
+     (forall t, is_derive (c1_N2 N0 k1 k2) t (k1 * c1_N1 N0 k1 t - k2 * c1_N2 N0 k1 k2 t)) /\
+     c1_N1 N0 k1 0 = N0 /\ c1_N2 N0 k1 k2 0 = 0) /\
+  (forall R0 lp l, lp <> 0 -> l <> 0 -> lp <> l ->
+     (forall t, is_derive (cb_P R0 lp) t (R0 - lp * cb_P R0 lp t)) /\
+     (forall t, is_derive (cb_D R0 lp l) t (lp * cb_P R0 lp t - l * cb_D R0 lp l t)) /\
+     cb_P R0 lp 0 = 0 /\ cb_D R0 lp l 0 = 0) /\
+  (forall N0 k1 kp kc l, k1 <> kp -> k1 <> l -> kp <> l ->
+     (forall t, is_derive (c2_N1 N0 k1) t (- k1 * c2_N1 N0 k1 t)) /\
+     (forall t, is_derive (c2_N2 N0 k1 kp) t (k1 * c2_N1 N0 k1 t - kp * c2_N2 N0 k1 kp t)) /\
+     (forall t, is_derive (c2_N3 N0 k1 kp kc l) t (kc * c2_N2 N0 k1 kp t - l * c2_N3 N0 k1 kp kc l t)) /\
+     c2_N1 N0 k1 0 = N0 /\ c2_N2 N0 k1 kp 0 = 0 /\ c2_N3 N0 k1 kp kc l 0 = 0).
 Proof.
-  exact (fun N0 k1 k2 H => conj (c1_N1_ode N0 k1) (conj (c1_N2_ode N0 k1 k2 H) (c1_init N0 k1 k2))).
+  exact (conj (fun N0 k1 k2 H => conj (c1_N1_ode N0 k1) (conj (c1_N2_ode N0 k1 k2 H) (c1_init N0 k1 k2)))
+        (conj (fun R0 lp l H1 H2 H3 => conj (cb_P_ode R0 lp H1) (conj (cb_D_ode R0 lp l H1 H2 H3) (cb_init R0 lp l H3)))
+              (fun N0 k1 kp kc l H1 H2 H3 =>
+                 conj (c2_N1_ode N0 k1) (conj (c2_N2_ode N0 k1 kp H1) (conj (c2_N3_ode N0 k1 kp kc l H1 H2 H3)
+                      (c2_init N0 k1 kp kc l H1 H2 H3)))))).
 Qed.
-Print Assumptions C14_chain_capture_solves.
+Print Assumptions C14_chains_solve.
 
-(* feeding by decay of an activated parent:  P' = R - lp P, D' = lp P - l D *)
-Theorem C14_chain_b_solves : forall R0 lp l, lp <> 0 -> l <> 0 -> lp <> l ->
-  (forall t, is_derive (cb_P R0 lp) t (R0 - lp * cb_P R0 lp t)) /\
-  (forall t, is_derive (cb_D R0 lp l) t (lp * cb_P R0 lp t - l * cb_D R0 lp l t)) /\
-  cb_P R0 lp 0 = 0 /\ cb_D R0 lp l 0 = 0.
+(* ---------------- Spec: the laws of the property on the chain solutions:
+   non-negative; proportional to mass; falls by exactly 2^(-t/T) over a rest time; does not fall with
+   exposure by more than the depletion exp(-k1 dt) of the target (single capture) *)
+Theorem C14_spec_laws :
+  (forall ch mass A phi1 phi s1 s2 T Tp t,
+     0 <= mass -> 0 < A -> 0 <= phi1 -> 0 <= phi -> 0 <= s1 -> 0 <= s2 -> 0 < T -> 0 <= t ->
+     match ch with
+     | CAct => rate phi1 s1 <> rate phi s2 + decay_const T
+     | CB => 0 < Tp /\ decay_const Tp <> decay_const T
+     | C2n => 0 < Tp /\ rate phi1 s1 <> rate phi s2 + decay_const Tp /\ rate phi1 s1 <> decay_const T
+              /\ rate phi s2 + decay_const Tp <> decay_const T
+     end ->
+     0 <= activity_end ch mass A phi1 phi s1 s2 T Tp t) /\
+  (forall ch c mass A phi1 phi s1 s2 T Tp t,
+     activity_end ch (c * mass) A phi1 phi s1 s2 T Tp t = c * activity_end ch mass A phi1 phi s1 s2 T Tp t) /\
+  (forall a T r1 r2,
+     activity_rest a T 0 = a /\
+     activity_rest a T (r1 + r2) = activity_rest a T r1 * Rpower 2 (- r2 / T) /\
+     (T <> 0 -> activity_rest a T T = a / 2)) /\
+  (forall mass A phi1 phi s1 s2 T Tp t1 t2,
+     0 <= mass -> 0 < A -> 0 <= phi1 -> 0 <= s1 -> 0 < T -> 0 <= t1 <= t2 ->
+     rate phi1 s1 <> rate phi s2 + decay_const T ->
+     activity_end CAct mass A phi1 phi s1 s2 T Tp t1 * exp (- rate phi1 s1 * (t2 - t1))
+     <= activity_end CAct mass A phi1 phi s1 s2 T Tp t2).
 Proof.
-  exact (fun R0 lp l H1 H2 H3 => conj (cb_P_ode R0 lp H1) (conj (cb_D_ode R0 lp l H1 H2 H3) (cb_init R0 lp l H3))).
+  exact (conj activity_end_nonneg (conj activity_linear_in_mass
+        (conj (fun a T r1 r2 => conj (rest_decay_zero a T) (conj (rest_decay_exact a T r1 r2) (rest_halves a T)))
+              activity_monotone_up_to_depletion))).
 Qed.
-Print Assumptions C14_chain_b_solves.
+Print Assumptions C14_spec_laws.
 
-(* two-step capture:  N1' = -k1 N1, N2' = k1 N1 - kp N2, N3' = kc N2 - l N3 *)
-Theorem C14_chain_2n_solves : forall N0 k1 kp kc l, k1 <> kp -> k1 <> l -> kp <> l ->
-  (forall t, is_derive (c2_N1 N0 k1) t (- k1 * c2_N1 N0 k1 t)) /\
-  (forall t, is_derive (c2_N2 N0 k1 kp) t (k1 * c2_N1 N0 k1 t - kp * c2_N2 N0 k1 kp t)) /\
-  (forall t, is_derive (c2_N3 N0 k1 kp kc l) t (kc * c2_N2 N0 k1 kp t - l * c2_N3 N0 k1 kp kc l t)) /\
-  c2_N1 N0 k1 0 = N0 /\ c2_N2 N0 k1 kp 0 = 0 /\ c2_N3 N0 k1 kp kc l 0 = 0.
-Proof.
-  exact (fun N0 k1 kp kc l H1 H2 H3 =>
-           conj (c2_N1_ode N0 k1) (conj (c2_N2_ode N0 k1 kp H1) (conj (c2_N3_ode N0 k1 kp kc l H1 H2 H3)
-                (c2_init N0 k1 kp kc l H1 H2 H3)))).
-Qed.
-Print Assumptions C14_chain_2n_solves.
-
-(* ---------------- Spec: the laws of the property on the chain solutions *)
-
-Theorem C14_activity_nonneg_spec : forall ch mass A phi1 phi s1 s2 T Tp t,
-  0 <= mass -> 0 < A -> 0 <= phi1 -> 0 <= phi -> 0 <= s1 -> 0 <= s2 -> 0 < T -> 0 <= t ->
-  match ch with
-  | CAct => rate phi1 s1 <> rate phi s2 + decay_const T
-  | CB => 0 < Tp /\ decay_const Tp <> decay_const T
-  | C2n => 0 < Tp /\ rate phi1 s1 <> rate phi s2 + decay_const Tp /\ rate phi1 s1 <> decay_const T
-           /\ rate phi s2 + decay_const Tp <> decay_const T
-  end ->
-  0 <= activity_end ch mass A phi1 phi s1 s2 T Tp t.
-Proof. exact activity_end_nonneg. Qed.
-Print Assumptions C14_activity_nonneg_spec.
-
-Theorem C14_linear_in_mass : forall ch c mass A phi1 phi s1 s2 T Tp t,
-  activity_end ch (c * mass) A phi1 phi s1 s2 T Tp t = c * activity_end ch mass A phi1 phi s1 s2 T Tp t.
-Proof. exact activity_linear_in_mass. Qed.
-Print Assumptions C14_linear_in_mass.
-
-Theorem C14_rest_decay_exact : forall a T r1 r2,
-  activity_rest a T 0 = a /\
-  activity_rest a T (r1 + r2) = activity_rest a T r1 * Rpower 2 (- r2 / T) /\
-  (T <> 0 -> activity_rest a T T = a / 2).
-Proof. exact (fun a T r1 r2 => conj (rest_decay_zero a T) (conj (rest_decay_exact a T r1 r2) (rest_halves a T))). Qed.
-Print Assumptions C14_rest_decay_exact.
-
-Theorem C14_monotone_up_to_depletion : forall mass A phi1 phi s1 s2 T Tp t1 t2,
-  0 <= mass -> 0 < A -> 0 <= phi1 -> 0 <= s1 -> 0 < T -> 0 <= t1 <= t2 ->
-  rate phi1 s1 <> rate phi s2 + decay_const T ->
-  activity_end CAct mass A phi1 phi s1 s2 T Tp t1 * exp (- rate phi1 s1 * (t2 - t1))
-  <= activity_end CAct mass A phi1 phi s1 s2 T Tp t2.
-Proof. exact activity_monotone_up_to_depletion. Qed.
-Print Assumptions C14_monotone_up_to_depletion.
-
-(* ---------------- Model (transcription of activity()) against the Spec *)
-
-(* the expression the tie compares every implementation value with IS the chain solution *)
-Theorem C14_model_spec_is_chain_solution : forall sb r amass mass env t br a m lam spec,
-  activity_row_with sb r amass mass env t = OAct br a m lam spec ->
-  evalR ln2_env_R spec =
-    activity_end (chain_of br) (Q2R mass) (IZR amass) (Q2R (row_flux r env)) (Q2R (fluence env))
-                 (Q2R (row_xs r env)) (Q2R (row_xs2 r env)) (Q2R (r_thalf r)) (Q2R (r_thalf_par r)) (Q2R t)
-  /\ evalR ln2_env_R lam = decay_const (Q2R (r_thalf r)).
-Proof. exact model_spec_is_chain_solution. Qed.
-Print Assumptions C14_model_spec_is_chain_solution.
-
-(* main branch, 'b' and '2n': the code-shaped expression denotes the chain solution exactly *)
-Theorem C14_model_refines_spec : forall sb r amass mass env t br a m lam spec,
-  activity_row_with sb r amass mass env t = OAct br a m lam spec ->
-  br <> BSmall ->
-  (br = BMain -> decay_const (Q2R (r_thalf r)) - rate (Q2R (row_flux r env)) (Q2R (row_xs r env))
-                 + rate (Q2R (fluence env)) (Q2R (row_xs2 r env)) <> 0) ->
-  evalR ln2_env_R a =
-    activity_end (chain_of br) (Q2R mass) (IZR amass) (Q2R (row_flux r env)) (Q2R (fluence env))
-                 (Q2R (row_xs r env)) (Q2R (row_xs2 r env)) (Q2R (r_thalf r)) (Q2R (r_thalf_par r)) (Q2R t).
-Proof. exact model_activity_is_chain_solution. Qed.
+(* ---------------- Model (transcription of activity() as the source stands) against the Spec:
+   (1) the expression the tie compares every implementation value with IS the chain solution (any
+       configuration); (2) on EVERY branch the code-shaped expression denotes the chain solution
+       (distinct removal rates); (3) the rest-time factor exp(-lam t) is 2^(-t/T) *)
+Theorem C14_model_refines_spec :
+  (forall cfg r amass mass env t br a m lam spec,
+     activity_row_with cfg r amass mass env t = OAct br a m lam spec ->
+     evalR ln2_env_R spec =
+       activity_end (chain_of br) (Q2R mass) (IZR amass) (Q2R (row_flux r env)) (Q2R (fluence env))
+                    (Q2R (row_xs r env)) (Q2R (row_xs2 r env)) (Q2R (r_thalf r)) (Q2R (r_thalf_par r)) (Q2R t)
+     /\ evalR ln2_env_R lam = decay_const (Q2R (r_thalf r))) /\
+  (forall r amass mass env t br a m lam spec,
+     activity_row r amass mass env t = OAct br a m lam spec ->
+     (br = BMain -> decay_const (Q2R (r_thalf r)) - rate (Q2R (row_flux r env)) (Q2R (row_xs r env))
+                    + rate (Q2R (fluence env)) (Q2R (row_xs2 r env)) <> 0) ->
+     evalR ln2_env_R a =
+       activity_end (chain_of br) (Q2R mass) (IZR amass) (Q2R (row_flux r env)) (Q2R (fluence env))
+                    (Q2R (row_xs r env)) (Q2R (row_xs2 r env)) (Q2R (r_thalf r)) (Q2R (r_thalf_par r)) (Q2R t)) /\
+  (forall a lam T ti, evalR ln2_env_R lam = decay_const T ->
+     evalR ln2_env_R (rest_model a lam ti) = activity_rest (evalR ln2_env_R a) T (Q2R ti)).
+Proof. exact (conj model_spec_is_chain_solution (conj model_refines_spec_current model_rest_decay_exact)). Qed.
 Print Assumptions C14_model_refines_spec.
 
-(* the same transcription without the small-argument test (what a repaired activity() would be)
-   denotes the chain solution on every branch *)
-Theorem C14_model_refines_spec_without_small_branch : forall r amass mass env t br a m lam spec,
-  activity_row_with false r amass mass env t = OAct br a m lam spec ->
-  (br = BMain -> decay_const (Q2R (r_thalf r)) - rate (Q2R (row_flux r env)) (Q2R (row_xs r env))
-                 + rate (Q2R (fluence env)) (Q2R (row_xs2 r env)) <> 0) ->
-  evalR ln2_env_R a =
-    activity_end (chain_of br) (Q2R mass) (IZR amass) (Q2R (row_flux r env)) (Q2R (fluence env))
-                 (Q2R (row_xs r env)) (Q2R (row_xs2 r env)) (Q2R (r_thalf r)) (Q2R (r_thalf_par r)) (Q2R t).
-Proof. exact model_refines_spec_repaired. Qed.
-Print Assumptions C14_model_refines_spec_without_small_branch.
+(* ---------------- "never fail to compute for physical inputs", "never negative": all 513 rows of the
+   regenerated activation.dat, every mass, environment and exposure *)
+Theorem C14_never_raises : forall rows, the_rows = Some rows -> forall r, In r rows ->
+  forall mass env t, (forall e, activity_row r (r_A r) mass env t <> ORaise e)
+                     /\ activity_row r (r_A r) mass env t <> OUndecided.
+Proof. exact never_raises_current. Qed.
+Print Assumptions C14_never_raises.
 
-(* the small-argument branch is the first-order term times 1 + (V+U)/(2(V-U)) *)
-Theorem C14_small_branch_factor : forall env root lam k1 kb t,
-  let U := evalR env k1 * evalR env t in let V := (evalR env kb + evalR env lam) * evalR env t in
-  evalR env lam - evalR env k1 + evalR env kb <> 0 -> V <> U ->
-  evalR env (small_code root lam k1 kb t) =
-    evalR env root * (evalR env lam / (evalR env lam - evalR env k1 + evalR env kb)) * (V - U) * (1 + (V + U) / (2 * (V - U))).
-Proof. exact small_code_factor. Qed.
-Print Assumptions C14_small_branch_factor.
-
-(* REFUTED at full strength: on the small-argument branch the model (and the code) is not the solution *)
-Theorem C14_small_branch_refuted :
-  exists r amass mass env t a m lam spec,
-    physical mass env t /\
-    activity_row_with true r amass mass env t = OAct BSmall a m lam spec /\
-    0 < evalR ln2_env_R spec /\
-    evalR ln2_env_R a > (149 / 100) * evalR ln2_env_R spec.
-Proof. exact small_branch_refuted. Qed.
-Print Assumptions C14_small_branch_refuted.
-
-(* REFUTED at full strength: "never fail to compute for physical inputs" *)
-Theorem C14_never_raises_refuted :
-  exists r amass mass env t, physical mass env t /\ activity_row_with true r amass mass env t = ORaise TypeErr.
-Proof. exact small_branch_raises_refuted. Qed.
-Print Assumptions C14_never_raises_refuted.
-
-Theorem C14_model_rest_decay_exact : forall a lam T ti, evalR ln2_env_R lam = decay_const T ->
-  evalR ln2_env_R (rest_model a lam ti) = activity_rest (evalR ln2_env_R a) T (Q2R ti).
-Proof. exact model_rest_decay_exact. Qed.
-Print Assumptions C14_model_rest_decay_exact.
-
-Theorem C14_fast_omitted : forall sb r amass mass env t,
-  (r_fast r = true -> Qeq (fast_ratio env) 0 -> activity_row_with sb r amass mass env t = OSkip) /\
-  (~ Qeq (fast_ratio env) 0 -> activity_row_with sb r amass mass env t <> OSkip).
-Proof. exact (fun sb r amass mass env t => conj (fast_omitted sb r amass mass env t) (fast_included sb r amass mass env t)). Qed.
-Print Assumptions C14_fast_omitted.
-
-Theorem C14_epithermal_omitted : forall r env,
-  ((cd_ratio env < 1)%Q -> Qeq (row_xs r env) (r_xs r) /\ Qeq (row_xs2 r env) (r_xs_par r)) /\
-  ((1 <= cd_ratio env)%Q -> Qeq (row_xs r env) (r_xs r + r_res r / cd_ratio env)
-                            /\ Qeq (row_xs2 r env) (r_xs_par r + r_res_par r / cd_ratio env)).
-Proof. exact (fun r env => conj (epithermal_omitted r env) (epithermal_included r env)). Qed.
-Print Assumptions C14_epithermal_omitted.
-
-Theorem C14_natural_is_abundance_sum : forall rows z isos m env t,
-  element_activity rows z isos m env t =
-  concat (map (fun ia => if Qeq_bool (m * snd ia * (1 # 100)) 0 then []
-                         else isotope_activity rows z (fst ia) (m * snd ia * (1 # 100))%Q env t) isos).
-Proof. exact natural_is_abundance_sum. Qed.
-Print Assumptions C14_natural_is_abundance_sum.
-
-(* ---------------- the rows of the regenerated activation.dat *)
-
-Theorem C14_table_loads : exists rows, the_rows = Some rows /\ length rows = 513%nat.
-Proof. exact rows_loaded. Qed.
-Print Assumptions C14_table_loads.
-
-Theorem C14_columns_as_labelled : columns_match_header ActivationDat.act_column_names ActivationDat.activation_dat = true.
-Proof. exact columns_as_labelled. Qed.
-Print Assumptions C14_columns_as_labelled.
-
-Theorem C14_table_rows_physical : forall rows, the_rows = Some rows -> forall r, In r rows -> row_ok r = true.
-Proof. exact rows_all_ok. Qed.
-Print Assumptions C14_table_rows_physical.
-
-(* all 513 rows, all physical inputs: the solution is non-negative, and so is the model's activity
-   off the small-argument branch *)
 Theorem C14_activity_nonneg : forall rows, the_rows = Some rows -> forall r, In r rows ->
-  forall sb mass env t br a m lam spec, physical mass env t ->
-  activity_row_with sb r (r_A r) mass env t = OAct br a m lam spec ->
+  forall mass env t br a m lam spec, physical mass env t ->
+  activity_row r (r_A r) mass env t = OAct br a m lam spec ->
   distinct_rates (chain_of br) (Q2R (row_flux r env)) (Q2R (fluence env)) (Q2R (row_xs r env)) (Q2R (row_xs2 r env))
                  (Q2R (r_thalf r)) (Q2R (r_thalf_par r)) ->
-  0 <= evalR ln2_env_R spec /\ (br <> BSmall -> 0 <= evalR ln2_env_R a).
-Proof. exact activity_nonneg. Qed.
+  0 <= evalR ln2_env_R a.
+Proof. exact activity_nonneg_current. Qed.
 Print Assumptions C14_activity_nonneg.
 
-(* ---------------- the comparison rule of the tie is a theorem about the meaning *)
-Theorem C14_tolerance_test_sound : forall tp py v scale fl,
-  (is_ge0 (sign_of (slack tp py v scale fl)) = true ->
-   Rabs (Q2R py - evalR ln2_env_R v) <= Q2R (D2Q 1 tp) * Rabs (evalR ln2_env_R scale) + Q2R fl) /\
-  (is_lt0 (sign_of (slack tp py v scale fl)) = true ->
-   Rabs (Q2R py - evalR ln2_env_R v) > Q2R (D2Q 1 tp) * Rabs (evalR ln2_env_R scale) + Q2R fl).
-Proof. exact (fun tp py v scale fl => conj (slack_sound tp py v scale fl) (slack_violated_sound tp py v scale fl)). Qed.
-Print Assumptions C14_tolerance_test_sound.
+(* ---------------- omission rules and natural elements (any configuration) *)
+Theorem C14_omission_rules :
+  (forall cfg r amass mass env t,
+     (r_fast r = true -> Qeq (fast_ratio env) 0 -> activity_row_with cfg r amass mass env t = OSkip) /\
+     (~ Qeq (fast_ratio env) 0 -> activity_row_with cfg r amass mass env t <> OSkip)) /\
+  (forall r env,
+     ((cd_ratio env < 1)%Q -> Qeq (row_xs r env) (r_xs r) /\ Qeq (row_xs2 r env) (r_xs_par r)) /\
+     ((1 <= cd_ratio env)%Q -> Qeq (row_xs r env) (r_xs r + r_res r / cd_ratio env)
+                               /\ Qeq (row_xs2 r env) (r_xs_par r + r_res_par r / cd_ratio env))) /\
+  (forall rows z isos m env t,
+     element_activity rows z isos m env t =
+     concat (map (fun ia => if Qeq_bool (m * snd ia * (1 # 100)) 0 then []
+                            else isotope_activity rows z (fst ia) (m * snd ia * (1 # 100))%Q env t) isos)).
+Proof.
+  exact (conj (fun cfg r amass mass env t => conj (fast_omitted cfg r amass mass env t) (fast_included cfg r amass mass env t))
+        (conj (fun r env => conj (epithermal_omitted r env) (epithermal_included r env)) natural_is_abundance_sum)).
+Qed.
+Print Assumptions C14_omission_rules.
 
-Theorem C14_ln2_bounds : Q2R ln2_lo < ln 2 < Q2R ln2_hi.
-Proof. exact ln2_bounds. Qed.
-Print Assumptions C14_ln2_bounds.
+(* ---------------- the regenerated activation.dat: 513 rows load, each physically meaningful, and the
+   columns read under the names thermalXS, resonance, Thalf_hrs, ... are those the file's own header
+   lines label so *)
+Theorem C14_table :
+  (exists rows, the_rows = Some rows /\ length rows = 513%nat) /\
+  (forall rows, the_rows = Some rows -> forall r, In r rows -> row_ok r = true) /\
+  columns_match_header ActivationDat.act_column_names ActivationDat.activation_dat = true.
+Proof. exact (conj rows_loaded (conj rows_all_ok columns_as_labelled)). Qed.
+Print Assumptions C14_table.
+
+(* ---------------- the comparison rule of the tie is a theorem about the meaning *)
+Theorem C14_comparison_rule_sound :
+  (forall tp py v scale fl,
+     (is_ge0 (sign_of (slack tp py v scale fl)) = true ->
+      Rabs (Q2R py - evalR ln2_env_R v) <= Q2R (D2Q 1 tp) * Rabs (evalR ln2_env_R scale) + Q2R fl) /\
+     (is_lt0 (sign_of (slack tp py v scale fl)) = true ->
+      Rabs (Q2R py - evalR ln2_env_R v) > Q2R (D2Q 1 tp) * Rabs (evalR ln2_env_R scale) + Q2R fl)) /\
+  (forall e, sgn_means (sign_of e) (evalR ln2_env_R e)) /\
+  Q2R ln2_lo < ln 2 < Q2R ln2_hi.
+Proof.
+  exact (conj (fun tp py v scale fl => conj (slack_sound tp py v scale fl) (slack_violated_sound tp py v scale fl))
+        (conj sign_of_sound ln2_bounds)).
+Qed.
+Print Assumptions C14_comparison_rule_sound.
